@@ -17,6 +17,7 @@
 //!            every strict prefix is rejected without a panic.
 
 mod battery;
+mod canon;
 mod mutate;
 
 use battery::*;
@@ -89,8 +90,15 @@ fn differing_fields<T: Debug>(want: &T, got: &T) -> String {
                 let name = line.trim().split(':').next().unwrap_or("").trim_end_matches(',').to_string();
                 out.push((name, line.to_string()));
             } else if let Some(last) = out.last_mut() {
+                last.1.push('\n');
                 last.1.push_str(line);
             }
+        }
+        // compare as multisets of lines: HashMap fields print in iteration order
+        for c in out.iter_mut() {
+            let mut lines: Vec<&str> = c.1.lines().collect();
+            lines.sort();
+            c.1 = lines.join("\n");
         }
         out
     }
@@ -652,6 +660,24 @@ impl<T: Battery> TypeDyn for Holder<T> {
                 detail("recon_direct_eq_via_model", direct.show(), model.show()),
             );
         }
+        // an accepted text is a re-spelling of the model of the value it was read as
+        if let (Out::Ok(x), Out::Ok(v)) = (&direct, &parsed) {
+            add(&c.text_calls, 1);
+            if let Ok(back) = guard(|| x.as_value()) {
+                if let Some(d) = canon::first_difference(&canon::canon_maps(v, T::MAP_PATHS), &canon::canon(&back)) {
+                    sink.report(
+                        "agree",
+                        format!("type={} law=accepted_input_matches_model source=recon at={}", T::NAME, d),
+                        text.len(),
+                        text,
+                        json!({"kind": "text", "type": T::NAME, "text": text, "origin": origin(), "law": "accepted_input_matches_model",
+                               "input_as_value": format!("{:?}", v), "read_as": format!("{:?}", x), "model_of_read": format!("{:?}", back),
+                               "what": format!("battery type {} ({}) accepts a Recon text that is not a re-spelling of the model of the value it is read as (a field was invented, dropped or taken from the wrong place)", T::NAME, T::COVERS),
+                               "input": text}),
+                    );
+                }
+            }
+        }
         TextResult { accept_direct: direct.is_ok(), accept_model: model.is_ok() }
     }
 
@@ -677,6 +703,24 @@ impl<T: Battery> TypeDyn for Holder<T> {
             (Out::Panic(_), _) | (_, Out::Panic(_)) => false,
             _ => true,
         };
+        if let (Out::Ok(x), Out::Ok(v)) = (&direct, &parsed) {
+            add(&c.mpm_calls, 1);
+            if let Ok(back) = guard(|| x.as_value()) {
+                if let Some(d) = canon::first_difference(&canon::canon_maps(v, T::MAP_PATHS), &canon::canon(&back)) {
+                    let h = hex(bytes);
+                    sink.report(
+                        "msgpack_agree",
+                        format!("type={} law=accepted_input_matches_model source=msgpack at={}", T::NAME, d),
+                        bytes.len(),
+                        &h,
+                        json!({"kind": "msgpack_bytes", "type": T::NAME, "hex": h, "origin": origin(), "law": "accepted_input_matches_model",
+                               "input_as_value": format!("{:?}", v), "read_as": format!("{:?}", x), "model_of_read": format!("{:?}", back),
+                               "what": format!("battery type {} ({}) accepts a MessagePack input that is not a re-spelling of the model of the value it is read as", T::NAME, T::COVERS),
+                               "input": h}),
+                    );
+                }
+            }
+        }
         if !agree {
             let (d, m) = match (&direct, &model) {
                 (Out::Ok(a), Out::Ok(b)) => ("Ok".to_string(), format!("Ok(different:{})", differing_fields(a, b))),
@@ -752,10 +796,11 @@ fn main() {
         let found = sink.found.into_inner().unwrap();
         let mut reproduced = false;
         for (sig, (_, _, leg, detail)) in found {
+            // the replayed case may break other laws too; only the requested one is reported
             if sig == want_sig {
                 reproduced = true;
+                ctx.violation(leg, &sig, detail);
             }
-            ctx.violation(leg, &sig, detail);
         }
         eprintln!("replay: signature {} {}", want_sig, if reproduced { "REPRODUCED" } else { "not reproduced" });
         ctx.finish("model_checking", "replay");
